@@ -437,6 +437,88 @@ func (w *Worker) sprintfSegs(st *State, segs []Seg, args []Value) (StrV, *Union)
 	return out, lineArg
 }
 
+// writeTo: text written to os.Stdout / os.Stderr (an event) or to a bufio.Writer over one of
+// them (kept in the writer until Flush).
+func (w *Worker) writeTo(st *State, wr *Union, text StrV, fmtS string, line Term) {
+	k, ok := wr.constKind()
+	if !ok {
+		panic(engineErr("write to a symbolic writer"))
+	}
+	switch dst := wr.P[k].(type) {
+	case Extern:
+		switch dst.name {
+		case "os.Stderr":
+			w.emit(st, EvStderr, text, fmtS, mkBV(0, 64), line)
+		case "os.Stdout":
+			w.emit(st, EvStdout, text, fmtS, mkBV(0, 64), line)
+		default:
+			panic(engineErr("write to unknown writer " + dst.name))
+		}
+	case Ptr:
+		obj, isW := st.heap[dst.id].(StructV)
+		if !isW || len(obj) != 2 {
+			panic(engineErr("write to unknown writer"))
+		}
+		st.heap[dst.id] = StructV{obj[0], append(append(ArrayV{}, obj[1].(ArrayV)...), text)}
+	default:
+		panic(engineErr("write to unknown writer"))
+	}
+}
+
+// isZeroValue: reflect.Value.IsZero for the payload of one dynamic type.
+func (w *Worker) isZeroValue(st *State, v Value) Term {
+	switch x := v.(type) {
+	case Term:
+		switch x.Sort {
+		case SBool:
+			return mkNot(x)
+		case SFP:
+			return Term{S: "(fp.isZero " + x.S + ")", Sort: SBool, Syms: x.Syms}
+		case STxt:
+			panic(engineErr("IsZero of opaque text"))
+		default:
+			w8 := map[Sort]int{SBV8: 8, SBV16: 16, SBV32: 32, SBV64: 64}[x.Sort]
+			return mkEq(x, mkBV(0, w8))
+		}
+	case StrV:
+		if len(x.Segs) == 0 {
+			return mkBool(true)
+		}
+		for _, g := range x.Segs {
+			if g.K != SegAtom {
+				return mkBool(false) // holds at least one code point
+			}
+		}
+		e, _ := strEq(x, StrV{})
+		return e
+	case SliceV:
+		return mkBool(x.id == 0)
+	case MapV:
+		return mkBool(x.id == 0)
+	case Ptr:
+		return mkBool(x.id == 0)
+	case FuncV:
+		return mkBool(x.fn == nil)
+	case StructV:
+		cs := []Term{}
+		for _, f := range x {
+			if u, ok := f.(*Union); ok {
+				cs = append(cs, u.isKind(KNil))
+				continue
+			}
+			cs = append(cs, w.isZeroValue(st, f))
+		}
+		return mkAnd(cs...)
+	case ArrayV:
+		cs := []Term{}
+		for _, f := range x {
+			cs = append(cs, w.isZeroValue(st, f))
+		}
+		return mkAnd(cs...)
+	}
+	panic(engineErr(fmt.Sprintf("IsZero of %T", v)))
+}
+
 func (w *Worker) sprint(st *State, args []Value, ln bool) StrV {
 	out := StrV{}
 	for i, a := range args {
@@ -496,6 +578,38 @@ func (w *Worker) intrinsic(st *State, f *Frame, x ssa.Value, callee *ssa.Functio
 		text := w.sprint(st, st.sliceElems(args[0].(SliceV)), full == "fmt.Println")
 		w.emit(st, EvStdout, text, "", mkBV(0, 64), mkBV(0, 64))
 		set(Tuple{mkBV(0, 64), nilUnion()})
+	case "fmt.Fprintln", "fmt.Fprint":
+		text := w.sprint(st, st.sliceElems(args[1].(SliceV)), full == "fmt.Fprintln")
+		w.writeTo(st, args[0].(*Union), text, "", mkBV(0, 64))
+		set(Tuple{mkBV(0, 64), nilUnion()})
+	case "bufio.NewWriter":
+		// a buffered writer over stdout/stderr: what is written stays in the object until Flush;
+		// what is still there when the process ends is lost (the 4096-byte automatic flush is not
+		// modelled: outputs in the harnesses are far below it)
+		wr := args[0].(*Union)
+		k, okk := wr.constKind()
+		ext, isExt := wr.P[k].(Extern)
+		if !okk || !isExt {
+			panic(engineErr("bufio.NewWriter over an unknown writer"))
+		}
+		id := st.alloc(StructV{ext, ArrayV{}})
+		set(Ptr{id: id})
+	case "(*bufio.Writer).Flush":
+		obj := st.heap[args[0].(Ptr).id].(StructV)
+		kind := EvStderr
+		if obj[0].(Extern).name == "os.Stdout" {
+			kind = EvStdout
+		}
+		for _, t := range obj[1].(ArrayV) {
+			w.emit(st, kind, t.(StrV), "", mkBV(0, 64), mkBV(0, 64))
+		}
+		st.heap[args[0].(Ptr).id] = StructV{obj[0], ArrayV{}}
+		set(nilUnion())
+	case "(*bufio.Writer).WriteString":
+		p := args[0].(Ptr)
+		obj := st.heap[p.id].(StructV)
+		st.heap[p.id] = StructV{obj[0], append(append(ArrayV{}, obj[1].(ArrayV)...), args[1].(StrV))}
+		set(Tuple{mkBV(0, 64), nilUnion()})
 	case "fmt.Printf":
 		fs, ok := constString(args[0])
 		if !ok {
@@ -509,13 +623,23 @@ func (w *Worker) intrinsic(st *State, f *Frame, x ssa.Value, callee *ssa.Functio
 		if !okk {
 			panic(engineErr("Fprintf to symbolic writer"))
 		}
-		ext, _ := wr.P[k].(Extern)
 		fa := st.sliceElems(args[2].(SliceV))
 		kind := EvStderr
-		switch ext.name {
-		case "os.Stderr":
-		case "os.Stdout":
-			kind = EvStdout
+		buffered := false
+		switch dst := wr.P[k].(type) {
+		case Extern:
+			switch dst.name {
+			case "os.Stderr":
+			case "os.Stdout":
+				kind = EvStdout
+			default:
+				panic(engineErr("Fprintf to unknown writer"))
+			}
+		case Ptr:
+			if _, isW := st.heap[dst.id].(StructV); !isW {
+				panic(engineErr("Fprintf to unknown writer"))
+			}
+			buffered = true
 		default:
 			panic(engineErr("Fprintf to unknown writer"))
 		}
@@ -573,7 +697,11 @@ func (w *Worker) intrinsic(st *State, f *Frame, x ssa.Value, callee *ssa.Functio
 				}
 			}
 		}
-		w.emit(st, kind, text, fs, mkBV(0, 64), line)
+		if buffered {
+			w.writeTo(st, wr, text, fs, line)
+		} else {
+			w.emit(st, kind, text, fs, mkBV(0, 64), line)
+		}
 		set(Tuple{mkBV(0, 64), nilUnion()})
 	case "fmt.Sprintf":
 		fs, ok := constString(args[0])
@@ -704,9 +832,30 @@ func (w *Worker) intrinsic(st *State, f *Frame, x ssa.Value, callee *ssa.Functio
 		set(out)
 	case "reflect.ValueOf":
 		set(ReflVal{args[0].(*Union)})
+	case "(reflect.Value).IsZero":
+		u := args[0].(ReflVal).u
+		w.obligation(st, "reflect-IsZero-on-zero-Value", token.NoPos, u.isKind(KNil))
+		res := mkBool(false)
+		for _, k := range u.kindsSorted() {
+			res = mkIte(u.isKind(k), w.isZeroValue(st, u.P[k]), res)
+		}
+		set(res)
 	case "(reflect.Value).Pointer":
 		u := args[0].(ReflVal).u
 		addr := mkBV(0, 64)
+		{
+			// Pointer panics on a Value that is not a chan, func, map, pointer, slice or
+			// unsafe pointer (and on the zero Value of a nil interface)
+			bad := []Term{u.isKind(KNil)}
+			for _, k := range u.kindsSorted() {
+				switch u.P[k].(type) {
+				case SliceV, MapV, Ptr, FuncV:
+				default:
+					bad = append(bad, u.isKind(k))
+				}
+			}
+			w.obligation(st, "reflect-Pointer-on-a-non-pointer-Value", token.NoPos, mkOr(bad...))
+		}
 		for _, k := range u.kindsSorted() {
 			var a uint64
 			switch p := u.P[k].(type) {
